@@ -934,6 +934,14 @@ def scenarios_tree():
             'A': move_rp(E, R, '1.14'), 'B': move_rp(R, S)}),
         ('three movers', {'A': move_rp(E, C), 'B': move_rp(C, S),
                           'C': move_rp(S, E)}),
+        ('move E under C | delete E', {'A': move_rp(E, C),
+                                       'B': delete_rp(E)}),
+        ('un-parent E (already a root) | delete E', {
+            'A': move_rp(E, None), 'B': delete_rp(E)}),
+        ('rename E (1.0, no parent key) | delete E', {
+            'A': lambda d: Req('PUT', '/resource_providers/%s' % E, '1.0',
+                               {'name': 'renamed'}),
+            'B': delete_rp(E)}),
         ('two children, parent moves', {
             'A': post_rp(world.N, 'kid', C), 'B': post_rp(N2, 'kid2', C),
             'C': move_rp(C, E)}),
@@ -1039,6 +1047,18 @@ def run_invariants(pid, scenarios, spec, res, per_state=None, per_step=None,
                        'responses': {n: results[n].brief()
                                      if results[n] is not None else None
                                      for n in reqs}}
+                # no fault is injected here: a 5xx answer is a defect
+                # whatever invariant the check is about
+                for n in sorted(reqs):
+                    r_ = results[n]
+                    if r_ is None or r_.status >= 500:
+                        esc = r_.escaped if r_ is not None else None
+                        res.violation(
+                            '%s|5xx|concurrent|%s|%s' % (
+                                pid, name, '%s|%s' % esc if esc else '?'),
+                            '%s [%s]: request %s answered %s' % (
+                                name, order, n,
+                                r_.status if r_ is not None else None), wit)
                 seq = [(None, None, d0)] + list(result['states'])
                 if per_state is not None:
                     for i in range(1, len(seq)):
